@@ -54,9 +54,20 @@ func c17MoreScenarios() []c17Scn {
 		must(vm.RefreshValidatorsFromBeaconNode(ctx, []phase0.BLSPubKey{k1}))
 		return []func(){
 			func() { _ = vm.RefreshValidatorsFromBeaconNode(ctx, []phase0.BLSPubKey{k1, k2}) },
-			func() { _ = vm.ValidatorsByPubKey(ctx, []phase0.BLSPubKey{k1, k2}) },
 			func() {
-				_ = vm.ValidatorsByIndex(ctx, []phase0.ValidatorIndex{3, 7})
+				// as the account managers do: take the validators, then read them (the lock is long released)
+				for _, v := range vm.ValidatorsByPubKey(ctx, []phase0.BLSPubKey{k1, k2}) {
+					if v != nil && v.ExitEpoch < v.ActivationEpoch && v.Slashed {
+						panic("harness: inconsistent record")
+					}
+				}
+			},
+			func() {
+				for _, v := range vm.ValidatorsByIndex(ctx, []phase0.ValidatorIndex{3, 7}) {
+					if v != nil && v.WithdrawableEpoch < v.ExitEpoch {
+						panic("harness: inconsistent record")
+					}
+				}
 				_, _ = vm.ValidatorStateAtEpoch(ctx, 3, 1)
 			},
 		}
@@ -71,10 +82,11 @@ func c17MoreScenarios() []c17Scn {
 		vm := c13NewVM(prov)
 		w := c13WalletWith("W", "Val1")
 		svc := dirkam.VerifNewService([]string{"W"}, map[string]e2wtypes.Wallet{"W": w}, vm, c13ChainTime(), c13FFE, 2)
-		svc.VerifRefreshAccounts(ctx)
+		// a first complete refresh (accounts and their validators) has happened; the periodic one runs next to the queries
+		svc.Refresh(ctx)
 		w.offer = append(w.offer, c13NewAccount("W", "Val2"))
 		return []func(){
-			func() { svc.VerifRefreshAccounts(ctx) },
+			func() { svc.Refresh(ctx) },
 			func() { _, _ = svc.ValidatingAccountsForEpoch(ctx, 1) },
 			func() {
 				_, _ = svc.ValidatingAccountsForEpochByIndex(ctx, 1, []phase0.ValidatorIndex{3, 7})
@@ -93,9 +105,10 @@ func c17MoreScenarios() []c17Scn {
 		w := c13WalletWith("W", "Val1")
 		svc := walletam.VerifNewService([]string{"W"}, nil, vm, c13ChainTime(), c13FFE, 2)
 		svc.VerifRefreshFromWallets(ctx, []e2wtypes.Wallet{w})
+		_ = svc.VerifRefreshValidators(ctx)
 		w2 := c13WalletWith("W", "Val1", "Val2")
 		return []func(){
-			func() { svc.VerifRefreshFromWallets(ctx, []e2wtypes.Wallet{w2}) },
+			func() { svc.VerifRefreshFromWallets(ctx, []e2wtypes.Wallet{w2}); _ = svc.VerifRefreshValidators(ctx) },
 			func() { _, _ = svc.ValidatingAccountsForEpoch(ctx, 1) },
 			func() {
 				_, _ = svc.ValidatingAccountsForEpochByIndex(ctx, 1, []phase0.ValidatorIndex{3, 7})
